@@ -268,11 +268,17 @@ func (s *requestStream) ReadResponse() (*http.Response, error) {
 
 	// Check that the server doesn't send more data in DATA frames than indicated by the Content-Length header (if set).
 	// See section 4.1.2 of RFC 9114.
-	respBody := newResponseBody(s.stream, res.ContentLength, s.reqDone)
-
-	// Rules for when to set Content-Length are defined in https://tools.ietf.org/html/rfc7230#section-3.3.2.
+	// A response to HEAD, and a 1xx, 204 or 304 response, never has a body: its
+	// Content-Length (if any) describes the representation, not bytes to wait for.
 	isInformational := res.StatusCode >= 100 && res.StatusCode < 200
 	isNoContent := res.StatusCode == http.StatusNoContent
+	bodyLength := res.ContentLength
+	if s.isHead || isInformational || isNoContent || res.StatusCode == http.StatusNotModified {
+		bodyLength = -1
+	}
+	respBody := newResponseBody(s.stream, bodyLength, s.reqDone)
+
+	// Rules for when to set Content-Length are defined in https://tools.ietf.org/html/rfc7230#section-3.3.2.
 	isSuccessfulConnect := s.isConnect && res.StatusCode >= 200 && res.StatusCode < 300
 	if (isInformational || isNoContent || isSuccessfulConnect) && res.ContentLength == -1 {
 		res.ContentLength = 0
